@@ -538,6 +538,21 @@ func c05ScaleCheck(c c05Scale) fw.Outcome {
 				objs = append(objs, geojson.NewPolygon(geometry.NewPoly(pts, nil, nil)))
 			}
 		}
+		// the same magnitudes under a segment index: node areas and enlargements overflow
+		var zig []geometry.Point
+		for i := 0; i < 24; i++ {
+			y := h
+			if i%2 == 1 {
+				y = -h
+			}
+			zig = append(zig, geometry.Point{X: h * (float64(i)/11.5 - 1), Y: y}) // -h ... h without an overflowing intermediate
+		}
+		for _, kind := range []geometry.IndexKind{geometry.RTree, geometry.QuadTree} {
+			step("indexed build")
+			objs = append(objs, geojson.NewLineString(geometry.NewLine(zig, &geometry.IndexOptions{Kind: kind, MinPoints: 1})))
+			ring := append(append([]geometry.Point{}, zig...), geometry.Point{X: h, Y: 0}, zig[0])
+			objs = append(objs, geojson.NewPolygon(geometry.NewPoly(ring, nil, &geometry.IndexOptions{Kind: kind, MinPoints: 1})))
+		}
 		objs = append(objs, geojson.NewPoint(geometry.Point{X: h, Y: -h}), geojson.NewRect(geometry.Rect{Min: geometry.Point{X: -h, Y: -h}, Max: geometry.Point{X: h, Y: h}}))
 		for i, a := range objs {
 			for j, b := range objs {
